@@ -34,8 +34,10 @@ PLANS = {
                 mc=[dict(model="MC_Rem", quick="MC_Rem_quick.cfg", thorough="MC_Rem_thorough.cfg")]),
     "C10": dict(drive=True),
     "C11": dict(drive=True),
-    "C12": dict(drive=True),
+    "C12": dict(drive=True, shard=1500),
     "C13": dict(drive=True),
+    "C14": dict(drive=True, shard=700),
+    "C15": dict(drive=True),
     "C16": dict(
         mcgen=[dict(model="MC_Round", quick="MC_Round_quick.cfg", thorough="MC_Round_thorough.cfg")],
         drive=True,
